@@ -544,6 +544,15 @@ def directed(cfg):
                                                         **({'joliet': '/grow'} if cfg.get('joliet') else {})),
                                                    {'op': 'reopen'}, deep('DEEQ', 'deeq')]))
         out.append(('reloc-remove-readd', chain + [deep('DEEP', 'deep'), rmdeep('DEEP'), deep('DEEP', 'deep'), deep('DEEQ', 'q' * 200), rmdeep('DEEQ')]))
+    # a directory of two sectors whose second sector starts with a record too long to move up into the room that a
+    # removal in the first sector frees; then a record of the second sector is removed (per-child bookkeeping)
+    mixed = [addfp(root, 'A%03d.;1' % i, 'a%03d' % i, n=10 + i) for i in range(1, 50)] + \
+            [addfp(root, 'B' * 26 + '.;1', 'b' * 26, n=77)] + [addfp(root, 'C%03d.;1' % i, 'c%03d' % i, n=100 + i) for i in range(1, 6)]
+    for tag, first, second in (('first-then-second', 'A010.;1', 'C001.;1'), ('second-then-first', 'C001.;1', 'A010.;1'), ('two-in-second', 'C002.;1', 'C004.;1')):
+        out.append(('mixed-lengths-two-sectors-%s' % tag, mixed + [{'op': 'reopen'}, rm('rmfile', root, first, first.split('.')[0].lower()),
+                                                                  rm('rmfile', root, second, second.split('.')[0].lower())]))
+        out.append(('mixed-lengths-two-sectors-live-%s' % tag, mixed + [rm('rmfile', root, first, first.split('.')[0].lower()),
+                                                                       rm('rmfile', root, second, second.split('.')[0].lower())]))
     # three copies of the primary volume descriptor, then the root directory grows and moves
     out.append(('three-pvds-root-grows', [{'op': 'duppvd'}, {'op': 'duppvd'}, addfp(root, 'FIRST.;1', 'first', n=3)] +
                 [addfp(root, 'G%04d.;1' % i, 'g%04d' % i, n=0) for i in range(50)] + [adddir(root, 'LATE', 'late')]))
